@@ -3,6 +3,7 @@ package stagea
 import (
 	"os"
 	"path/filepath"
+	"sort"
 )
 
 // WorldRoot is where project directories live: inside the plain copy of the
@@ -18,10 +19,42 @@ func Materialise(dir string, files map[string]string, clean bool) error {
 	if err := os.MkdirAll(dir, 0o755); err != nil {
 		return err
 	}
-	for n, c := range files {
-		if err := os.WriteFile(filepath.Join(dir, n), []byte(c), 0o644); err != nil {
+	for _, n := range CreationOrder(files, dir) {
+		if err := os.WriteFile(filepath.Join(dir, n), []byte(files[n]), 0o644); err != nil {
 			return err
 		}
 	}
 	return nil
+}
+
+// CreationOrder decides in which order the files of a project directory are
+// created. Directory listing order is a source of nondeterminism of its own
+// (tmpfs lists by creation time, ext4 by name hash): the simulator owns it by
+// deriving the creation order from the directory path, so that a history
+// directory and the pristine model directory of the same sources list their
+// entries differently, reproducibly.
+func CreationOrder(files map[string]string, dir string) []string {
+	names := make([]string, 0, len(files))
+	for n := range files {
+		names = append(names, n)
+	}
+	sort.Strings(names)
+	h := uint64(14695981039346656037)
+	for i := 0; i < len(dir); i++ {
+		h = (h ^ uint64(dir[i])) * 1099511628211
+	}
+	switch h % 3 {
+	case 0: // ascending
+	case 1: // descending
+		for i, j := 0, len(names)-1; i < j; i, j = i+1, j-1 {
+			names[i], names[j] = names[j], names[i]
+		}
+	default: // seeded shuffle
+		for i := len(names) - 1; i > 0; i-- {
+			h = h*6364136223846793005 + 1442695040888963407
+			j := int((h >> 33) % uint64(i+1))
+			names[i], names[j] = names[j], names[i]
+		}
+	}
+	return names
 }
